@@ -628,7 +628,7 @@ def evaluate(ctx, cases):
             w = works[i]
             cfg, g, s = w.a
             if kind == 'sis':
-                w.mi = ask(['sis', cfg[2], g, s])
+                w.mi = ask(['sis_gen', cfg[2], g, s])   # the body translated from the live source; = hand model by theorem
             w.si = ask(['spec_sis', g, s])
     answers = drv.batch(reqs)
 
